@@ -217,6 +217,31 @@ pub fn data_frag(out: &mut Vec<u8>, le: bool, d: &DataFragMsg, pad: bool) {
   submsg(out, ID_DATA_FRAG, flags, le, &w.buf);
 }
 
+thread_local! {
+  /// What a case wants in the bits of the last bitmap word that lie beyond numBits. RTPS leaves them undefined,
+  /// RustDDS writes zeros, other implementations need not. Set per case (thread) by the front ends.
+  static PAD_GARBAGE: std::cell::Cell<u32> = const { std::cell::Cell::new(0) };
+}
+pub fn set_pad_garbage(g: u32) {
+  PAD_GARBAGE.with(|c| c.set(g));
+}
+/// the per-case padding choice: a third of the cases carry random bits there (own PRNG stream, so the case itself
+/// is the one the same index always had)
+pub fn choose_pad_garbage(seed: u64, stream: u64, index: u64) -> u32 {
+  let mut r = crate::prng::Rng::derive(seed, stream ^ 0x9ad0_0000, index);
+  let g = if r.chance(1, 3) { r.next() as u32 | 1 } else { 0 };
+  set_pad_garbage(g);
+  g
+}
+fn dirty_padding(bm: &mut [u32], num_bits: u32) {
+  let used = num_bits % 32;
+  if used != 0 {
+    if let Some(last) = bm.last_mut() {
+      *last |= PAD_GARBAGE.with(|c| c.get()) & (u32::MAX >> used);
+    }
+  }
+}
+
 /// Number set: base + explicit bit count + members (offsets from base).
 pub fn sn_set(w: &mut W, base: i64, num_bits: u32, members: &[i64]) {
   w.sn(base);
@@ -229,6 +254,7 @@ pub fn sn_set(w: &mut W, base: i64, num_bits: u32, members: &[i64]) {
       bm[(off / 32) as usize] |= 1u32 << (31 - (off % 32));
     }
   }
+  dirty_padding(&mut bm, num_bits);
   for x in bm {
     w.u32(x);
   }
@@ -244,6 +270,7 @@ pub fn fn_set(w: &mut W, base: u32, num_bits: u32, members: &[u32]) {
       bm[(off / 32) as usize] |= 1u32 << (31 - (off % 32));
     }
   }
+  dirty_padding(&mut bm, num_bits);
   for x in bm {
     w.u32(x);
   }
